@@ -34,7 +34,7 @@ EXPLANATION = ("exploration under AddressSanitizer/UBSan: sees executed paths"
                " only; reference neutrality by sys.getrefcount drift under "
                "repetition (no debug build needed)")
 BOUNDS = {"quick": "about one shard in six of every other driver (quick "
-                   "tier) + the full neutrality menu",
+                   "tier) + the full neutrality menu (66 cells)",
           "thorough": "one shard in two + the full neutrality menu"}
 ASSUMPTIONS = ["allocation-failure paths are out (no malloc injector)",
                "crafted __setstate__ tuples are not documented API use"]
